@@ -192,15 +192,37 @@ fn encode_table(ex: &mut Ex, it: &Items, ty: &str, item: &str) -> Vec<(String, i
     rows
 }
 /// all `match <scrutinee>` on an RctType inside a function, in source order: per match, per arm, the set of variants (a wildcard arm is `[]`)
-struct RctMatches { out: Vec<Vec<Vec<String>>>, eqs: Vec<String> }
+/// `cmps`: every comparison of the scrutinee with a variant, in source order, WITH its polarity — `rct_type == RctType::X` and the reversed
+/// `RctType::X == rct_type` as `(true, X)`, `!=` as `(false, X)`, `matches!(rct_type, A | B)` as `(true, A), (true, B)`, `!matches!(..)` as
+/// `(false, ..)`. (`eqs` keeps its older reading — left-hand scrutinee only, polarity dropped — for the theorems that already use it.)
+struct RctMatches { out: Vec<Vec<Vec<String>>>, eqs: Vec<String>, cmps: Vec<(bool, String)> }
+fn is_rct_scrutinee(t: &str) -> bool { t == "rct_type" || t.ends_with(".rct_type") }
+fn matches_macro_variants(m: &Macro) -> Option<Vec<String>> {
+    if m.path.segments.last().map(|s| s.ident == "matches").unwrap_or(false) {
+        let body = m.tokens.to_string().split_whitespace().collect::<Vec<_>>().join("");
+        let (sc, pats) = body.split_once(',')?;
+        if !is_rct_scrutinee(sc) { return None; }
+        let pats = pats.trim_end_matches(',');
+        return Some(pats.split('|').map(|x| x.rsplit("::").next().unwrap_or("").to_string()).collect());
+    }
+    None
+}
 impl<'b> Visit<'b> for RctMatches {
+    fn visit_expr_unary(&mut self, u: &'b ExprUnary) {
+        if let (UnOp::Not(_), Expr::Macro(m)) = (&u.op, &*u.expr) { if let Some(vs) = matches_macro_variants(&m.mac) { for v in vs { self.cmps.push((false, v)); } return; } }
+        visit::visit_expr_unary(self, u);
+    }
+    fn visit_macro(&mut self, m: &'b Macro) { if let Some(vs) = matches_macro_variants(m) { for v in vs { self.cmps.push((true, v)); } } }
     fn visit_expr_match(&mut self, m: &'b ExprMatch) {
         let sc = toks(&m.expr);
         if sc == "rct_type" || sc == "self.rct_type" { self.out.push(m.arms.iter().map(|a| { let mut v = vec![]; pat_variants(&a.pat, &mut v); v }).collect()); }
         visit::visit_expr_match(self, m);
     }
     fn visit_expr_binary(&mut self, b: &'b ExprBinary) {
-        if matches!(b.op, BinOp::Eq(_) | BinOp::Ne(_)) { let (l, r) = (toks(&b.left), toks(&b.right)); if (l == "rct_type" || l.ends_with(".rct_type")) && r.starts_with("RctType::") { self.eqs.push(r["RctType::".len()..].to_string()); } }
+        if matches!(b.op, BinOp::Eq(_) | BinOp::Ne(_)) { let (l, r) = (toks(&b.left), toks(&b.right)); if (l == "rct_type" || l.ends_with(".rct_type")) && r.starts_with("RctType::") { self.eqs.push(r["RctType::".len()..].to_string()); }
+            let pos = matches!(b.op, BinOp::Eq(_));
+            if is_rct_scrutinee(&l) && r.starts_with("RctType::") { self.cmps.push((pos, r["RctType::".len()..].to_string())); }
+            else if is_rct_scrutinee(&r) && l.starts_with("RctType::") { self.cmps.push((pos, l["RctType::".len()..].to_string())); } }
         visit::visit_expr_binary(self, b);
     }
 }
@@ -232,10 +254,12 @@ fn codec_tables(ex: &mut Ex, s: &mut String) {
     for (ty, fname, lname) in [("EcdhInfo", "consensus_decode", "ecdhDecMatches"), ("RctSigBase", "consensus_decode", "baseDecMatches"), ("RctSigBase", "consensus_encode", "baseEncMatches"),
                                ("RctSigPrunable", "consensus_decode", "prunDecMatches"), ("RctSigPrunable", "consensus_encode", "prunEncMatches")] {
         let f = it.fns.iter().find(|(t, _, n, _)| t == ty && n == fname).map(|x| x.3);
-        let mut rm = RctMatches { out: vec![], eqs: vec![] }; if let Some(f) = f { rm.visit_block(&f.block); } else { ex.fail(&format!("codec.{}.{}", ty, fname), "function not found"); }
+        let mut rm = RctMatches { out: vec![], eqs: vec![], cmps: vec![] }; if let Some(f) = f { rm.visit_block(&f.block); } else { ex.fail(&format!("codec.{}.{}", ty, fname), "function not found"); }
+        if rm.cmps.iter().any(|(_, v)| !RCTS.contains(&v.as_str())) { ex.fail(&format!("codec.{}.{}", ty, fname), "unknown RctType variant in a comparison"); }
         if rm.out.iter().flatten().flatten().any(|v| !RCTS.contains(&v.as_str())) { ex.fail(&format!("codec.{}.{}", ty, fname), "unknown RctType variant in a match"); }
         writeln!(s, "/-- `{}::{}`: the `match rct_type` expressions in source order, each as the list of its arms' variant sets -/\ndef {} : List (List (List RctTy)) := {}", ty, fname, lname, lean_rct_sets(&rm.out)).unwrap();
         writeln!(s, "/-- … and the variants compared with `==` / `!=`, in source order -/\ndef {}Eqs : List RctTy := [{}]", lname.replace("Matches", ""), rm.eqs.iter().map(|v| format!(".{}", v)).collect::<Vec<_>>().join(", ")).unwrap();
+        writeln!(s, "/-- … the same comparisons WITH polarity (`true` for `==` / `matches!`, `false` for `!=` / `!matches!`; either operand order), in source order -/\ndef {}Cmps : List (Bool × RctTy) := [{}]", lname.replace("Matches", ""), rm.cmps.iter().filter(|(_, v)| RCTS.contains(&v.as_str())).map(|(p, v)| format!("({}, .{})", p, v)).collect::<Vec<_>>().join(", ")).unwrap();
     }
 }
 
@@ -826,7 +850,7 @@ fn defs_of_item(item: &str) -> Vec<String> {
         ["codec", "encode"] => vec!["txInEncode".into(), "txOutTargetEncode".into(), "subFieldEncode".into(), "rctTypeEncode".into()],
         ["codec", ty, "decode"] => vec![format!("{}Decode", lower(ty))], ["codec", ty, "encode"] => vec![format!("{}Encode", lower(ty))],
         ["codec", ty, f] => { let n = match (*ty, *f) { ("EcdhInfo", "consensus_decode") => "ecdhDec", ("RctSigBase", "consensus_decode") => "baseDec", ("RctSigBase", "consensus_encode") => "baseEnc",
-            ("RctSigPrunable", "consensus_decode") => "prunDec", ("RctSigPrunable", "consensus_encode") => "prunEnc", _ => return vec![] }; vec![format!("{}Matches", n), format!("{}Eqs", n)] }
+            ("RctSigPrunable", "consensus_decode") => "prunDec", ("RctSigPrunable", "consensus_encode") => "prunEnc", _ => return vec![] }; vec![format!("{}Matches", n), format!("{}Eqs", n), format!("{}Cmps", n)] }
         ["network", "as_u8"] => vec!["asU8".into()], ["network", "from_u8"] => vec!["fromU8".into()],
         ["address", "from_slice"] => vec!["addrType".into(), "addrTypeEmptyIsError".into()],
         ["amount", "precision"] => vec!["precision".into()], ["amount", "denom_display"] => vec!["denomDisplay".into()], ["amount", "denom_fromstr"] => vec!["denomFromStr".into()],
@@ -853,7 +877,7 @@ fn finalize(text: String, reviewed: &str, obs: &crate::observe::Observed, failed
                     if !failed_defs.contains_key(n) && rows_norm(syn) != rows_norm(v) { notes.push(format!("EXTRACT-NOTE {}: the syntactic reading of the source ({}) differs from the observed behaviour ({}); the observed table is used", n, syn, v)); }
                     if failed_defs.contains_key(n) { notes.push(format!("EXTRACT-NOTE {}: syntactic extraction failed ({}); the table observed by evaluating the function on its whole domain is used", n, failed_defs[n])); }
                     writeln!(out, "{}:= {}", &line[..i], v).unwrap(); resolved.push(n.to_string()); done = true; }
-            } else if (n.ends_with("Matches") || n.ends_with("Eqs") || n.starts_with("shape_")) && !failed_defs.contains_key(n)
+            } else if (n.ends_with("Matches") || n.ends_with("Eqs") || n.ends_with("Cmps") || n.starts_with("shape_")) && !failed_defs.contains_key(n)
                       && reviewed.lines().find(|l| def_name(l) == Some(n)).map(|r| r != line).unwrap_or(false) {
                 // purely structural items (which `match`es a codec branches on, whether a body has the reviewed token shape): a
                 // different structure is not a different behaviour. The reviewed structure is kept — it is what the hand-written
@@ -974,6 +998,14 @@ mod tests {
         assert_eq!(assign_of(&block("{ *self = *self + other }"), "other").as_deref(), Some("+"));
         assert_eq!(assign_of(&block("{ *self = *self + Amount::ZERO }"), "other"), None);
         assert_eq!(assign_of(&block("{ *self = *self + rhs }"), "other"), None);
+    }
+    #[test] fn rct_comparisons_with_polarity() {
+        let b = block("{ if rct_type == RctType::Simple { a(); } if RctType::Full != self.rct_type { b(); } if matches!(rct_type, RctType::Clsag | RctType::BulletproofPlus) { c(); } let x = !matches!(self.rct_type, RctType::Null); match rct_type { RctType::Null => 0, _ => 1 } }");
+        let mut rm = RctMatches { out: vec![], eqs: vec![], cmps: vec![] }; rm.visit_block(&b);
+        let c: Vec<(bool, &str)> = rm.cmps.iter().map(|(p, v)| (*p, v.as_str())).collect();
+        assert_eq!(c, vec![(true, "Simple"), (false, "Full"), (true, "Clsag"), (true, "BulletproofPlus"), (false, "Null")]);
+        assert_eq!(rm.eqs, vec!["Simple".to_string()]);
+        assert_eq!(rm.out, vec![vec![vec!["Null".to_string()], vec![]]]);
     }
     fn parser(src: &str) -> (String, Vec<String>) {
         let f = parse_file(src).unwrap(); let it = items(&f); let mut ex = Ex { fails: vec![] }; let mut s = String::new();
